@@ -53,7 +53,8 @@ CallInfo(e) ==
          ELSE IF Cands(a, a.start) = {} \/ Cands(a, a.end) = {} THEN [arg |-> "open", cmd |-> NoCmd]
          ELSE [arg |-> "ok",
                cmd |-> [kind |-> "createschedule", mask |-> DayMask(SeqToSet(a.days)),
-                        start |-> Cands(a, a.start), end |-> Cands(a, a.end)]]      \* sets: any candidate is right
+                        start |-> Cands(a, a.start), end |-> Cands(a, a.end),       \* sets: any candidate is right
+                        zone |-> a.zone, startText |-> a.start, endText |-> a.end]]
     [] e.op = "stop" -> [arg |-> "ok", cmd |-> [kind |-> "runnerstop"]]
     [] e.op = "set_position" ->
          [arg |-> IF PositionAccepted(a.pos) THEN "ok" ELSE "open", cmd |-> [kind |-> "runnerpos", pos |-> a.pos]]
@@ -91,16 +92,21 @@ C01Clauses(b) ==
   \o Cl(SignatureOk(b), "C01:signature")
 
 \* the schedule record may carry either candidate instant of a repeated hour
-Concrete(cmd, b) ==
+\* "today" is the local date at some instant of the call: the one at which it began or any one up to the write (a call
+\* that is under way at local midnight may stamp the schedule with either date)
+Concrete(cmd, b, clk) ==
   IF cmd.kind # "createschedule" THEN cmd
   ELSE LET d == DecodeFrame(b)
+           late(t) == IF clk[1] < 32768
+                      THEN {LE32(x) : x \in ClockCandidates(cmd.zone, 65536 * clk[1] + clk[2], ClockHH(t), ClockMM(t))} ELSE {}
            pick(S, got) == IF got \in S THEN got ELSE CHOOSE x \in S : TRUE
+           core == [kind |-> cmd.kind, mask |-> cmd.mask, start |-> cmd.start, end |-> cmd.end]
        IN IF d.kind = "createschedule"
-          THEN [cmd EXCEPT !.start = pick(cmd.start, d.start), !.end = pick(cmd.end, d.end)]
-          ELSE [cmd EXCEPT !.start = CHOOSE x \in cmd.start : TRUE, !.end = CHOOSE x \in cmd.end : TRUE]
+          THEN [core EXCEPT !.start = pick(cmd.start \cup late(cmd.startText), d.start), !.end = pick(cmd.end \cup late(cmd.endText), d.end)]
+          ELSE [core EXCEPT !.start = CHOOSE x \in cmd.start : TRUE, !.end = CHOOSE x \in cmd.end : TRUE]
 
 FrameClauses(s, cmd0, why, b, clk) ==
-  LET cmd == Concrete(cmd0, b)
+  LET cmd == Concrete(cmd0, b, clk)
       ts == IF Len(b) >= 28 THEN TsOf(b) ELSE Zeros(4)
       want == Frame(WithCtx(s, cmd, ts))
       login == cmd.kind \in LoginKinds
